@@ -12,7 +12,7 @@ from sa.model import AnalysisError
 from rules.c03 import Blocks, make_oracle, mkop, op_sym, _run_optimizer, slot
 from spec import teal_literals as TL
 
-TEXTS = ["plain", "", "two\nlines", "cr\rlf\r\nmix", "trailing\n", "\nleading", "a // b", "a; b", 'quote " inside', "pop\nint 1", "uni sep", "vt\x0bff\x0c", "\n\n"]
+TEXTS = ["plain", "", "two\nlines", "cr\rlf\r\nmix", "trailing\n", "\nleading", "a // b", "a; b", 'quote " inside', "pop\nint 1", "uni sep", "vt\x0bff\x0c", "\n\n", "swap{a,b}", "f{}", "close}", "{0}", "100%d %s"]
 
 
 def _comment_world(ctx, W):
@@ -187,7 +187,11 @@ def r18_3_single_line_text(ctx):
     ctx.analysed(asm.fq)
     for text in TEXTS + [None]:
         selfs = Sym("label", attrs={"comment": text, "label": Sym("ref", methods={"getLabel": lambda: "sub_0"})})
-        val, _ = run_function(asm.node, {"self": selfs}, lambda e, me: (_ for _ in ()).throw(Unknown()), asm.fq)
+        try:
+            val, _ = run_function(asm.node, {"self": selfs}, lambda e, me: (_ for _ in ()).throw(Unknown()), asm.fq)
+        except Raised as r:
+            ctx.bad("R18.3", f"TealLabel.assemble[comment={text!r}]", f"assembling a label whose comment (a subroutine's name) is {text!r} raises {r.exc_text[:60]}", asm.where)
+            continue
         lines = val.split("\n")
         code_lines = [l for l in lines if l.strip() and not l.lstrip().startswith("//")]
         ok = code_lines == ["sub_0:"] and lines[-1] == "sub_0:" and "\r" not in "".join(l for l in lines if not l.lstrip().startswith("//"))
@@ -211,10 +215,55 @@ def r18_3_single_line_text(ctx):
     ctx.require_min("R18.3", 15)
 
 
+def _range_structure(s: str):
+    """shape of an npm range: `||`-separated alternatives; an alternative is a hyphen range `A - B` (blanks on both sides of
+    the hyphen) or a blank-separated set of comparators"""
+    out = []
+    for alt in s.split("||"):
+        toks = alt.split()
+        if len(toks) == 3 and toks[1] == "-":
+            out.append(("hyphen", toks[0], toks[2]))
+        else:
+            out.append(("set", tuple(toks)))
+    return out
+
+
+def r18_5_pragma_ranges(ctx):
+    ctx.rule("R18.5", "a compiler-version pragma is judged as written: converting PEP 440 spellings inside an npm range rewrites the version tokens only - alternatives (||), comparator sets and hyphen ranges `A - B` keep their shape, each token being converted as it is when it stands alone")
+    f = ctx.model.find_func("__convert_pep440_compiler_version", "pyteal.pragma.pragma")
+    ctx.analysed(f.fq)
+    import re as _re
+
+    def conv(text):
+        val, _ = run_function(f.node, {"compiler_version": text}, lambda e, me: _re if u(e) == "re" else (_ for _ in ()).throw(Unknown()), f.fq)
+        return val
+
+    ranges = ["0.27.0", "0.1.0 - 999.0.0", "0.27.0 - 0.28.0", "v0.26.0 - v0.27.0", ">=0.20.0 <0.30.0", "<0.5.0+local || >=1.0.0a9.post1.dev2", "1.0.0a1 || 2.0.0 - 3.0.0 || ^4", "~0.26.1 || 0.27.x", "*", "1.0.0rc1 - 1.0.0", ">=0.20.0 <0.30.0 || 1.x - 2.x"]
+    for r in ranges:
+        try:
+            got = conv(r)
+            want = []
+            for alt in _range_structure(r):
+                if alt[0] == "hyphen":
+                    want.append(("hyphen", conv(alt[1]), conv(alt[2])))
+                else:
+                    want.append(("set", tuple(conv(t) for t in alt[1])))
+            ok = isinstance(got, str) and _range_structure(got) == want
+            why = f"is converted to `{got}`, whose shape {_range_structure(got) if isinstance(got, str) else None} differs from the shape of the range as written with its tokens converted {want}"
+        except Raised as r_:
+            ok, why = False, f"raises {r_.exc_text[:50]}"
+        ctx.check(ok, "R18.5", f"pragma-range[{r}]", f"`{r}` {why}", f.where, fact={"converted": got if ok else None})
+    ctx.require_min("R18.5", 10)
+
+
 def run(ctx):
     r18_1_annotations_delegate(ctx)
     r18_2_comment_inert(ctx)
     r18_3_single_line_text(ctx)
+    r18_5_pragma_ranges(ctx)
+    from rules.lowering_sem import r04_9_whole_program
+
+    r04_9_whole_program(ctx)  # a subroutine's name is an annotation: whatever it is, every callsub reaches its routine (shared with C04)
     from rules import c01 as _c01b
 
     _c01b.r01_13_is_terminal(ctx)  # a comment op behind a terminator does not turn the block into a fall-through block
